@@ -112,6 +112,7 @@ var HostileFloats = []float64{
 	math.Float64frombits(0x000fffffffffffff), // largest subnormal
 	float64(math.MaxInt64), float64(math.MinInt64), 9007199254740992, 9007199254740993,
 	math.Nextafter(math.MaxFloat64, 0), math.Nextafter(-math.MaxFloat64, 0),
+	18446744073709551616, -18446744073709551616, math.Nextafter(18446744073709551616, 0), 4294967296, 2147483648, 1e15, 1e21, 999999999999999900000,
 }
 
 // AnyFloat draws from hostile constants, small "nice" numbers and raw bits.
